@@ -1681,6 +1681,148 @@ def check_C12(tier, seed, replay):
     return res
 
 
-CHECKS = {"C12": check_C12, "C03": check_C03, "C16": check_C16, "C20": check_C20, "C15": check_C15, "C18": check_C18, "C11": check_C11, "C01": check_C01, "C02": check_C02, "C04": check_C04, "C05": check_C05, "C06": check_C06,
+
+# ---------------------------------------------------------------------------------------------- C17
+def check_C17(tier, seed, replay):
+    import hashlib
+    import random
+    import shutil
+    import subprocess
+    import families
+    import layout
+    import peg
+    from concurrent.futures import ThreadPoolExecutor
+    res = Result()
+    rnd = random.Random(seed * 613 + 17)
+    cli0 = cli_bin()
+    front0 = tools_bin("front")
+    scratch = "/tmp/verif_boot_%d" % os.getpid()
+    shutil.rmtree(scratch, ignore_errors=True)
+    try:
+        subprocess.run(["rsync", "-a", "--exclude", "target", "--exclude", ".git", vlib.REPO + "/", scratch + "/"], check=True)
+        gtext_path = os.path.join(vlib.REPO, "grammar.ebnf")
+
+        def gen(cli, cwd):
+            p1 = subprocess.run([cli, gtext_path], stdout=subprocess.PIPE, stderr=subprocess.PIPE, cwd=cwd)
+            if p1.returncode != 0:
+                raise ToolError("generator failed on grammar.ebnf: %s" % p1.stdout.decode()[-500:])
+            p2 = subprocess.run(["rustfmt", "--edition", "2021"], input=p1.stdout, stdout=subprocess.PIPE, stderr=subprocess.PIPE)
+            if p2.returncode != 0:
+                raise ToolError("rustfmt failed: %s" % p2.stderr.decode()[-500:])
+            return p2.stdout.decode()
+
+        def body(text):
+            ok, rest = split_header(text)
+            if not ok:
+                raise ToolError("generated front end lacks the documented header")
+            return rest
+
+        shipped = open(os.path.join(vlib.REPO, "codegen", "src", "grammar", "generated.rs")).read()
+        s1 = gen(cli0, vlib.REPO)
+        # a generator built around S1
+        with open(os.path.join(scratch, "codegen", "src", "grammar", "generated.rs"), "w") as f:
+            f.write(s1)
+        e = vlib.cargo_env()
+        e["CARGO_TARGET_DIR"] = os.path.join(vlib.WORK, "target_boot")
+        p_ = subprocess.run(["cargo", "build", "--offline", "-p", "peginator-cli", "--manifest-path", os.path.join(scratch, "Cargo.toml")],
+                            env=e, stdout=subprocess.PIPE, stderr=subprocess.PIPE, text=True)
+        if p_.returncode != 0:
+            res.add(Violation("C17", "Fixpoint", "a generator built around the regenerated front end does not compile: %s" % p_.stderr[-1500:],
+                              None, {"site": "stage1-build"}))
+            return finish_C17(res, [], 0, 0)
+        cli1 = os.path.join(vlib.WORK, "target_boot", "debug", "peginator-cli")
+        s2 = gen(cli1, scratch)
+        # the regenerated front end as a library (the `front` tool built against the scratch copy)
+        tdir = os.path.join(scratch, "verif_tools")
+        shutil.copytree(os.path.join(vlib.VERIF, "harness", "tools"), tdir)
+        ct = open(os.path.join(tdir, "Cargo.toml")).read().replace("/repo/", scratch + "/")
+        open(os.path.join(tdir, "Cargo.toml"), "w").write(ct)
+        p_ = subprocess.run(["cargo", "build", "--offline", "--bin", "front"], cwd=tdir, env=e, stdout=subprocess.PIPE, stderr=subprocess.PIPE, text=True)
+        if p_.returncode != 0:
+            raise ToolError("building the front tool against the regenerated front end failed: %s" % p_.stderr[-1500:])
+        front1 = os.path.join(vlib.WORK, "target_boot", "debug", "front")
+        # texts: valid layouts, restriction-violating grammars, mutated texts, repository grammars
+        texts = []
+        srcs = []
+        for fam in ("ops", "fields", "ws", "user", "bad", "inc"):
+            fs = families.family(fam, tier, seed)
+            srcs += families.sample(rnd, fs, 6 if tier == "quick" else 60)
+        for g in srcs:
+            texts.append(layout.layout_text(g, rnd, "wild") if not g.meta.get("text") and g.meta.get("expect", "code") == "code"
+                         else peg.grammar_text(g))
+        repo_texts = [open(gtext_path).read()]
+        for root, dn, fn in os.walk(os.path.join(vlib.REPO, "test", "src")):
+            repo_texts += [open(os.path.join(root, f)).read() for f in sorted(fn) if f.endswith("ebnf")]
+        texts += repo_texts
+        junk = ["(", ")", "[", "]", "{", "}", "!", "&", "|", ";", "=", ":", "@", "*", ">", "'", '"', "\\", "..", "$", "i'", "é", "#", "\n"]
+        for i in range(60 if tier == "quick" else 1500):
+            cs = list(rnd.choice(texts[:len(srcs)] + repo_texts))
+            for _ in range(rnd.randint(1, 3)):
+                pos = rnd.randint(0, len(cs))
+                if rnd.random() < 0.4 and cs:
+                    del cs[min(pos, len(cs) - 1)]
+                else:
+                    cs.insert(pos, rnd.choice(junk))
+            if rnd.random() < 0.2:
+                cs = cs[:rnd.randint(0, len(cs))]
+            texts.append("".join(cs))
+        wdir = os.path.join(vlib.famdir("boot", tier), "texts")
+        os.makedirs(wdir, exist_ok=True)
+
+        def read_both(i):
+            pth = os.path.join(wdir, "t%05d.ebnf" % i)
+            with open(pth, "w") as f:
+                f.write(texts[i])
+            return run_door([front0, "ast", pth], timeout=60), run_door([front1, "ast", pth], timeout=60)
+
+        with ThreadPoolExecutor(max_workers=vlib.NCPU) as ex:
+            outs = list(ex.map(read_both, range(len(texts))))
+        dg = lambda x: hashlib.sha256(x.encode("utf-8")).hexdigest()[:16]  # noqa: E731
+        events = [{"ev": "stage", "n": 0, "code": dg(body(shipped))}, {"ev": "stage", "n": 1, "code": dg(body(s1))},
+                  {"ev": "stage", "n": 2, "code": dg(body(s2))}]
+        for i, (a, b) in enumerate(outs):
+            for n, r in ((0, a), (1, b)):
+                out = r["out"] if r["status"] == "exit" and r["code"] == 0 else "%s:%s" % (r["status"], r["code"])
+                events.append({"ev": "read", "n": n, "text": "t%05d" % i, "out": dg(out)})
+        tp = os.path.join(vlib.famdir("boot", tier), "boot_trace.ndjson")
+        with open(tp, "w") as f:
+            for ev in events:
+                f.write(json.dumps(ev) + "\n")
+        ok, line, st = traces.validate("boot", tp, len(events), module="Bootstrap")
+        if not ok:
+            ev = events[line - 1]
+            if ev["ev"] == "stage":
+                what = ("regenerating the front end from grammar.ebnf with the tree's generator does not reproduce the shipped "
+                        "codegen/src/grammar/generated.rs" if ev["n"] == 1 else
+                        "the generator built around the regenerated front end produces different code (stage 2 differs from stage 1)")
+                import difflib
+                a_, b_ = (body(shipped), body(s1)) if ev["n"] == 1 else (body(s1), body(s2))
+                diff = "\n".join(list(difflib.unified_diff(a_.split("\n"), b_.split("\n"), lineterm="", n=1))[:60])
+                res.add(Violation("C17", "Fixpoint", what, None, {"site": "stage%d" % ev["n"], "diff": diff}))
+            else:
+                i = int(ev["text"][1:])
+                res.add(Violation("C17", "SameReading", "the shipped and the regenerated front end read a text differently", None,
+                                  {"site": "reading", "text": texts[i][:2000], "shipped": outs[i][0]["out"][:600],
+                                   "regenerated": outs[i][1]["out"][:600]}))
+        return finish_C17(res, events, st["states"], len(texts))
+    finally:
+        shutil.rmtree(scratch, ignore_errors=True)
+
+
+def finish_C17(res, events, states, ntexts):
+    res.coverage = {
+        "states": max(1, states), "transitions": max(1, states - 1), "traces_validated_against_impl": 1 if events else 0,
+        "evaluations": len(events), "distinct_nontrivial": ntexts,
+        "rule": "stage 0 (shipped), 1 (regenerated with the tree's generator) and 2 (regenerated by a generator built around stage 1) "
+                "of the front end, rustfmt-normalised and with the header removed; both front ends on wild layouts of corpus grammars, "
+                "restriction-violating grammars, all repository grammars and seeded mutations / truncations; the observation sequence "
+                "is validated by TLC against Bootstrap.tla; non-trivial = distinct text read by both front ends",
+        "exhaustive": False, "samples": events[:4],
+    }
+    res.assumptions = ["the header (version, build time, CRC) is outside the comparison", "the scratch copy lives under /tmp and is removed"]
+    return res
+
+
+CHECKS = {"C17": check_C17, "C12": check_C12, "C03": check_C03, "C16": check_C16, "C20": check_C20, "C15": check_C15, "C18": check_C18, "C11": check_C11, "C01": check_C01, "C02": check_C02, "C04": check_C04, "C05": check_C05, "C06": check_C06,
           "C07": check_C07, "C08": check_C08, "C09": check_C09, "C10": check_C10, "C13": check_C13,
           "C14": check_C14, "C19": check_C19}
